@@ -93,7 +93,7 @@ def showDelRes : DelRes → String
 
 /-- the calls one `proc` step makes, as the harness records them. -/
 def procLog (o : Outcome) (q : QItem) (σ : St) : String :=
-  let cat1 := if o.markOk then markGroup q.gid σ.cat else σ.cat
+  let cat1 := markStage o.markOk q.gid σ.cat
   let r := delRes o.del q.sid σ.eng σ.pending
   let p := if !o.pruneOk then "0" else if pruneWouldPanic cat1 then "panic" else "1"
   s!" M{q.gid}:{bit o.markOk} D{q.sid}:{showDelRes r} P{q.sid}:{p}"
